@@ -372,7 +372,8 @@ CFG = {
              "Reflect.*, Go API); observed: every result, every accessor call (function, this, argument), and full "
              "descriptor dumps of all objects (Reflect.ownKeys order, isExtensible, prototype) at random points and at the end; "
              "non-trivial = at least one operation was refused (false / TypeError); distinct = by hash of the case"),
-    "theorem_names": ["define_eq_spec", "define_wf", "define_step_eq_spec", "set_eq_spec", "essential_invariants",
+    "theorem_names": ["define_eq_spec", "define_wf", "define_step_eq_spec", "set_eq_spec", "get_eq_spec", "has_eq_spec",
+                      "bookkeeping_invariant", "essential_invariants",
                       "nonextensible_invariants", "frozen_is_final", "ownkeys_order", "ownkeys_unique",
                       "ownkeys_same_set", "idxcount_exact", "set_only_receiver", "goja_set_only_receiver"],
     "allowed_axioms": [],
@@ -402,7 +403,8 @@ CFG = {
                  "value; a non-extensible object keeps its prototype and gains no key; a frozen object never changes; (3) for "
                  "every history of add/delete/enumerate goja's lazily sorted propNames equals OrdinaryOwnPropertyKeys, keys unique, "
                  "idxPropCount exact; (4) goja's [[Set]] (setOwn*/setForeign* for string, index and symbol keys, incl. the "
-                 "idxPropCount shortcut) equals OrdinarySet on related heaps for every target, receiver and prototype chain. 18 "
+                 "idxPropCount shortcut) equals OrdinarySet on related heaps for every target, receiver and prototype chain (likewise [[Get]], "
+                 "[[Has]], [[GetOwnProperty]], define), under a bookkeeping invariant proved to hold along every history. 24 "
                  "theorems, no axioms. Tied to /repo on every run by 1500 (quick) / 100000 (thorough) generated histories over 13 "
                  "object kinds (incl. the lazily templated built-ins Math, JSON, Reflect, Function.prototype), 23 keys of 5 kinds "
                  "and 4 API surfaces, compared step by step (results, accessor events, descriptor dumps) with S and with the "
